@@ -61,6 +61,34 @@ class Ctx:
         return f
 
 
+def anchor_py_files(prop: str, repo) -> List[str]:
+    """Python files named in the property's anchors (directories and globs expanded), from the fixed properties file."""
+    out: List[str] = []
+    for ln in open(os.path.join(VERIF, "properties.jsonl"), encoding="utf-8"):
+        d = json.loads(ln)
+        if d.get("id") != prop:
+            continue
+        for f in d.get("anchors", {}).get("files", []):
+            f = f.split(" ")[0].strip()
+            if f.endswith(".py") and repo.exists(f):
+                out.append(f)
+            elif f.endswith("/") or (not f.endswith(".py") and "*" not in f and os.path.isdir(os.path.join(repo.root, f))):
+                out += [x for x in repo.iter_py(f.rstrip("/"))]
+            elif "*" in f and f.endswith(".py"):
+                import fnmatch
+                out += [x for x in repo.iter_py("spsdk") if fnmatch.fnmatch(x, f)]
+    return sorted(set(out))
+
+
+def generic_rules(ctx) -> None:
+    """Rules that apply to every property's anchor modules: delegating overrides hand on every shared parameter."""
+    from .engines import superflow
+    files = anchor_py_files(ctx.chk.prop, ctx.repo)
+    if files:
+        n = superflow.check(ctx, f"{ctx.chk.prop}.override-forwarding", files)
+        ctx.chk.extra["override_forwarding_sites"] = n
+
+
 def load_known() -> List[dict]:
     p = os.path.join(VERIF, "known_findings.json")
     if not os.path.exists(p):
@@ -77,6 +105,7 @@ def run_prop(prop: str, tier: str, root: str, overlays: Optional[Dict[str, str]]
     try:
         ctx = Ctx(prop, tier, root, overlays)
         mod.run(ctx)
+        ctx.rule(generic_rules)
         ctx.chk.extra["package_units_parsed"] = len(ctx.repo.consulted)
         rc = ctx.chk.finish(load_known(), write=write)
     except AnalysisError as e:
